@@ -208,6 +208,8 @@ func checkC14(c *Ctx) {
 	c.Rule("C14.R1.sense", "Widened/Narrowed agree with the attribute's sense (upper bound ↑ = widened, lower bound ↑ = narrowed, exclusive removed = widened, string→non-string = narrowed, number wideness ↑ = widened)", 12)
 	sites := bindSites(c, r, "C14.R1.orientation")
 	checkSymmetricGuards(c, r, sites)
+	checkSharedGuards(c, "C14.R1.shared-guards", r, sites)
+	checkMemoKey(c, "C14.R2.memo-key", r)
 	type famKey struct{ fn, fam, code string }
 	plusFns := map[string][]boundSite{}
 	for _, bs := range sites {
@@ -1168,5 +1170,97 @@ func checkSymmetricGuards(c *Ctx, r *goan.Rel, sites []boundSite) {
 		}
 		c.Check(bad == "", rule, siteKey(bs.Site, bs.Code)+" › symmetric conditions", c.posOf(pk, bs.Pos), "every one-sided test has its twin",
 			bs.Code+" has no direction, but "+bad+" in the conditions around its emission: it is reported in one direction of the comparison and not in the other")
+	}
+}
+
+// checkSharedGuards: a condition whose branch emits a directed code and its mirror (added and
+// deleted media types, widened and narrowed bounds) decides for both directions at once: it
+// must treat the two specs alike. A test of one side only (`len(new.Consumes) > 0`) lets a
+// change through in one direction and hides it in the other — or hides the removal altogether.
+func checkSharedGuards(c *Ctx, rule string, r *goan.Rel, sites []boundSite) {
+	c.Rule(rule, "an `if` whose body emits a code and its mirror code has a condition that tests both specs alike", 5)
+	pk := r.Pkg
+	info := r.Info()
+	for _, fd := range load.AllFuncs(pk) {
+		if fd.Body == nil {
+			continue
+		}
+		fd := fd
+		ord := 0
+		ast.Inspect(fd.Body, func(nd ast.Node) bool {
+			ifs, ok := nd.(*ast.IfStmt)
+			if !ok {
+				return true
+			}
+			codes := map[string]bool{}
+			for _, bs := range sites {
+				if bs.Fn == fd && bs.Pos >= ifs.Body.Pos() && bs.Pos <= ifs.Body.End() {
+					codes[bs.Code] = true
+				}
+				if bs.Call != nil && bs.Call.Fn == fd && bs.Call.Call.Pos() >= ifs.Body.Pos() && bs.Call.Call.Pos() <= ifs.Body.End() {
+					codes[bs.Code] = true
+				}
+			}
+			pair := ""
+			for _, code := range sortedKeys(codes) {
+				if m := mirrorCode(code); m != code && codes[m] && pair == "" {
+					pair = code + " / " + m
+				}
+			}
+			if pair == "" {
+				return true
+			}
+			ord++
+			cnt := map[string][2]int{}
+			var walk func(e ast.Expr)
+			walk = func(e ast.Expr) {
+				switch x := ast.Unparen(e).(type) {
+				case *ast.BinaryExpr:
+					if x.Op == token.LAND || x.Op == token.LOR {
+						walk(x.X)
+						walk(x.Y)
+						return
+					}
+				case *ast.UnaryExpr:
+					if x.Op == token.NOT {
+						walk(x.X)
+						return
+					}
+				case *ast.Ident:
+					if d := goan.ResolveLocal(info, fd.Body, x); d != ast.Expr(x) {
+						walk(d)
+						return
+					}
+				}
+				t := sidedTextOpt(r, e, false, true)
+				has1, has2 := strings.Contains(t, "①"), strings.Contains(t, "②")
+				if has1 == has2 {
+					return
+				}
+				key := strings.NewReplacer("①", "§", "②", "§").Replace(t)
+				v := cnt[key]
+				if has1 {
+					v[0]++
+				} else {
+					v[1]++
+				}
+				cnt[key] = v
+			}
+			walk(ifs.Cond)
+			bad := ""
+			var ks []string
+			for k := range cnt {
+				ks = append(ks, k)
+			}
+			sort.Strings(ks)
+			for _, k := range ks {
+				if v := cnt[k]; v[0] != v[1] && bad == "" {
+					bad = fmt.Sprintf("`%s` is tested %d× on the old spec and %d× on the new one", strings.TrimSpace(k), v[0], v[1])
+				}
+			}
+			c.Check(bad == "", rule, fmt.Sprintf("diff.%s › if #%d around %s", load.FuncName(fd), ord, pair), c.posOf(pk, ifs.Pos()), "the condition tests both specs alike",
+				fmt.Sprintf("the condition `%s` guards the emission of %s, but %s: the change is looked for when one spec has the attribute and not when only the other has it", goan.ExprString(ifs.Cond), pair, bad))
+			return true
+		})
 	}
 }
